@@ -54,6 +54,7 @@ class Spec:
     elem_cache_attrs: frozenset = frozenset()
     root_classes: frozenset = frozenset()  # constructor names producing FT when fed root parts
     elem_mutating_methods: frozenset = frozenset()
+    share_attrs: frozenset = frozenset()  # sibling.attr = <owned container of the root> makes the two objects share it
 
 
 TAPE_SPEC = Spec(
@@ -460,6 +461,9 @@ class _Run:
             bt = self.eval(target.value, env)
             if T in bt and target.attr not in sp.root_cache_attrs:
                 self.sink(st, "attr-store", f"assigns attribute `{target.attr}` of the input {sp.name}")
+            if FT in bt and L in value_tags and target.attr in sp.share_attrs:
+                self.sink(st, "share", f"stores a container owned by the input {sp.name} as `{target.attr}` of the new object without copying it: "
+                                       "the two objects then share it and editing one edits the other")
             if E in bt and target.attr not in sp.elem_cache_attrs:
                 self.sink(st, "elem-attr-store", f"assigns attribute `{target.attr}` of an operator/measurement owned by the input {sp.name}")
             if I in bt:
@@ -639,7 +643,7 @@ class _Run:
             rt = self.eval(fn.value, env)
             m = fn.attr
             if rt:
-                if (L in rt) and m in LIST_MUT:
+                if (L in rt) and m in (LIST_MUT | DICT_MUT | SET_MUT):
                     self.sink(c, "list-mutation", f"`{norm(fn.value)}.{m}(…)` mutates a list owned by the input {sp.name} (obtained by reference, not copied)")
                 if (I in rt) and m in (DICT_MUT | LIST_MUT | SET_MUT):
                     self.sink(c, "internal-mutation", f"`{norm(fn.value)}.{m}(…)` mutates internals of an operator owned by the input {sp.name}")
